@@ -103,8 +103,10 @@ func keyOf(o originSpec, plainPort int, secure bool) originKey {
 			p = 80
 		}
 	}
-	if secure && o.Scheme == "http" && p == 80 {
-		p = 443 // upgraded: http://h[:80] and https://h are one origin after the upgrade
+	if secure && p == 80 {
+		// upgraded: http://h[:80] and https://h are one origin after the upgrade (RFC 9460 9.5). Lenient: the
+		// same for https://h:80, which the statement is silent about and which may be dialled at 443 (see Assume).
+		p = 443
 	}
 	return originKey{o.Host, secure, p}
 }
@@ -160,9 +162,9 @@ func TestCheck(t *testing.T) {
 	}
 	g0 := runtime.NumGoroutine()
 
-	n := r.N(420, 21000)
+	n := r.N(1400, 21000)
 	if raceBuild {
-		n = r.N(210, 4200)
+		n = r.N(420, 4200)
 	}
 	r.Parallel("seq", n, func(i int, rng *mrand.Rand) {
 		fx := <-fixtures
@@ -492,7 +494,7 @@ func (w *world) judge(r *mon.Run, outs []outcome) {
 	}
 
 	// ---- per request ----
-	fp := []string{cs.Theme, fmt.Sprintf("%+v", cs.Cfg)}
+	fp := []string{cs.Theme, fmt.Sprintf("h3=%v h2=%v plain=%v fail=%v conc=%v", cs.Cfg.H3, cs.Cfg.H2, cs.Cfg.PlainAllowed, cs.Cfg.FailAll, cs.Cfg.Concurrent)}
 	for _, o := range cs.Origins {
 		fp = append(fp, fmt.Sprintf("%s:%d:%s", o.Scheme, min(o.Port, 9000), cs.Kinds[qnameOf(o.Host, o.port(w.plainPort))]))
 	}
